@@ -50,6 +50,19 @@ def templates():
     T["subroutine-in-loop-result-uses-spec-constant"] = main(
         "    kq = spec.get_int_constant(constant_id=\"rows\")\n    acc = 0\n    i = 0\n    for i in range(n):\n        acc = acc + sub(i)\n    return acc + kq\n",
         "@move\ndef sub(m: int):\n" + PRO + "    {X}\n    return m\n\n")
+    # a function value handed back through TWO levels of subroutines before the kernel calls it
+    via = mk + "@move\ndef via(m: int):\n    return mk(m)\n\n"
+    T["closure-returned-through-two-subroutines-result-uses-spec-constant"] = main(
+        "    kq = spec.get_int_constant(constant_id=\"rows\")\n    f = via(n)\n    r = f(n)\n    return r + kq\n", via)
+    # folds and scans whose accumulator starts as a constant EMPTY list (collecting results) over a list that is not empty at run time
+    kick = ("@move\ndef kick(done: ilist.IList[float, Any], angle: float):\n" + PRO + "    {X}\n    return done + [angle]\n\n"
+            "@move\ndef kick2(done: ilist.IList[float, Any], angle: float):\n" + PRO + "    {X}\n    return done + [angle], angle\n\n"
+            "@move\ndef rkick(angle: float, done: ilist.IList[float, Any]):\n" + PRO + "    {X}\n    return done + [angle]\n\n")
+    angles = "    angles = ilist.map(to_angle, ilist.range(n))\n"
+    to_angle = "@move\ndef to_angle(k: int):\n    return 0.5 * k\n\n"
+    T["ilist-foldl-into-empty-list"] = main(angles + "    r = ilist.foldl(kick, angles, [])\n    return r\n", kick + to_angle)
+    T["ilist-foldr-into-empty-list"] = main(angles + "    r = ilist.foldr(rkick, angles, [])\n    return r\n", kick + to_angle)
+    T["ilist-scan-into-empty-list"] = main(angles + "    r = ilist.scan(kick2, angles, [])\n    return r\n", kick + to_angle)
     T["closure-never-called"] = main("    def inner(k: int):\n        {X}\n        return k\n    return inner\n")
     two = ("@move\ndef pick(c: bool):\n    def a(k: int):\n        return k\n    def b(k: int):\n        return k + 1\n    if c:\n        return a\n    return b\n\n")
     T["after-dynamic-call"] = main("    g = pick(c)\n    r = g(n)\n    {X}\n", two)
